@@ -38,7 +38,7 @@ META = {
                    'assign/set delivers only the before-event, syncUpdate delivers one write and one after-event for all '
                    'assignments since the last sync (the property text is silent on how many before-events belong to one '
                    'lazy write; see C19_lazy_* theorems).'),
-    'rule': ('cases = (eager|lazy class with 3 int columns, 0-6 listeners, history of <=20 ops create/assign/set/'
+    'rule': ('cases = (eager|lazy class, cacheValues on|off, with 3 int columns, 0-6 listeners, history of <=20 ops create/assign/set/'
              'syncUpdate/sync/destroy/fetch/select incl. invalid values and unknown keywords) and (3-level inheritance '
              'chain, listeners per level some connected before the subclass exists, create order); in 30% of the cases some '
              'listeners / appended callbacks create rows of a second class with its own listeners; distinct = distinct '
@@ -139,8 +139,8 @@ def enc_op(op):
 
 def line_of(case):
     if case['kind'] == 'P':
-        return 'P %d %d %s | %s | %s | %s' % (
-            1 if case['lazy'] else 0, NCOLS, ','.join(enc_val(v) for v in DEFAULTS),
+        return 'P %d %d %s %d | %s | %s | %s' % (
+            1 if case['lazy'] else 0, NCOLS, ','.join(enc_val(v) for v in DEFAULTS), 1 if case.get('cv', True) else 0,
             ' '.join('%s:%s' % (s, enc_act(a)) for s, a in case['listeners']),
             ' ; '.join(enc_op(op) for op in case['ops']),
             ' '.join('%s:%s' % (s, enc_act(a)) for s, a in case.get('blisteners', [])))
@@ -152,7 +152,7 @@ def line_of(case):
 def norm_case(case):
     """JSON round trip gives lists; normalise to tuples"""
     if case['kind'] == 'P':
-        return {'kind': 'P', 'lazy': bool(case['lazy']),
+        return {'kind': 'P', 'lazy': bool(case['lazy']), 'cv': bool(case.get('cv', True)),
                 'listeners': [(s, tuple(a)) for s, a in case['listeners']],
                 'blisteners': [(s, tuple(a)) for s, a in case.get('blisteners', [])],
                 'ops': [tuple(tuple(map(tuple, x)) if isinstance(x, list) else x for x in op) for op in case['ops']]}
@@ -236,7 +236,7 @@ def renew_conn():
         e['conn'] = e['LogConn'](':memory:')
 
 
-def make_class(lazy):
+def make_class(lazy, cache_values=True):
     from sqlobject import SQLObject, IntCol
     e = env()
     name = sqlo.uniq('C19P')
@@ -246,6 +246,7 @@ def make_class(lazy):
 
     class sqlmeta:
         lazyUpdate = bool(lazy)
+        cacheValues = bool(cache_values)
         table = name.lower()
     attrs['sqlmeta'] = sqlmeta
     cls = type(name, (SQLObject,), attrs)
@@ -302,7 +303,7 @@ def run_plain(case):
     e = env()
     conn = e['conn']
     events = e['events']
-    cls = make_class(case['lazy'])
+    cls = make_class(case['lazy'], case.get('cv', True))
     by = make_class(False)          # bystander class: its events must never reach cls's listeners and vice versa
     bcls = make_class(False)        # class B: rows of it are created from inside listeners / callbacks of cls
     btable = bcls.sqlmeta.table
@@ -770,7 +771,9 @@ def gen_plain(rng, maxops):
             ops.append(('F', h))
         else:
             ops.append(('L',))
-    return {'kind': 'P', 'lazy': lazy, 'listeners': listeners, 'ops': ops, 'blisteners': blisteners}
+    # sqlmeta.cacheValues = False (eager and lazy): nothing kept on the instance, the events must be the same
+    return {'kind': 'P', 'lazy': lazy, 'cv': rng.random() >= 0.3, 'listeners': listeners, 'ops': ops,
+            'blisteners': blisteners}
 
 
 def gen_chain(rng):
@@ -826,7 +829,8 @@ def run_case(ctx, case, model_out):
         nwrites = sum(1 for r in results for x in r['entries'] if x[0] in 'IUD')
         ctx.case(line, nontrivial=bool(case['listeners']) and nwrites > 0,
                  sample={'case': line, 'impl': impl[:400]},
-                 kind='%s/%d-listeners' % ('lazy' if case['lazy'] else 'eager', min(len(case['listeners']), 4)))
+                 kind='%s%s/%d-listeners' % ('lazy' if case['lazy'] else 'eager', '' if case.get('cv', True) else '-nocachevalues',
+                                             min(len(case['listeners']), 4)))
         for r in results:
             ctx.count('out:' + r['out'])
         ctx.compare('plain class: merged signal/statement log and table = model', case_json(case), model_out, impl)
